@@ -237,11 +237,13 @@ def check_partition(ctx):
             v = r.value
             st = '%s returns %s' % (mname, canon(v)[:120])
             if isinstance(v, ast.Tuple) and len(v.elts) == 2:
-                a, b = canon(v.elts[0]), canon(v.elts[1])
+                a, b = canon(v.elts[0]).lower(), canon(v.elts[1]).lower()
                 if ('pack' in a and 'unpack' not in a and 'unpack' in b):
                     ctx.holds(rule, fi, st, '(pack block, unpack block)', r.lineno, clause='c')
+                elif 'unpack' in a and 'pack' in b and 'unpack' not in b:
+                    ctx.violation(rule, fi, st, 'generators must return (pack block, unpack block) in that order', r.lineno, clause='c', witness=True)
                 else:
-                    ctx.violation(rule, fi, st, 'generators must return (pack block, unpack block) in that order', r.lineno, clause='c')
+                    ctx.undecided(rule, fi, st, 'cannot tell which element of the pair is the pack block and which the unpack block', r.lineno, clause='c')
             else:
                 ctx.undecided(rule, fi, st, 'generator does not return a 2-tuple display', r.lineno, clause='c')
     for t in ctx.repo.templates():
